@@ -380,3 +380,45 @@ func countersCompaction(c *core.Ctx) {
 		c.Check(ok, "the free-port scan skips exactly the ports in use", c.Pos(fn.Pos()), "", "freePort is not advanced on the `freePort == bind.LocalPort` branch: a port in use is handed out again")
 	}
 }
+
+func init() {
+	doc := "HAProxyUpdate commits the model on every successful exit that processed it (every `return nil` after the nil-config guard runs config.Commit, deferred or direct): without it applied changes stay pending, every later update reloads and re-enqueues acme work."
+	for _, p := range []string{"C05", "C11", "C17"} {
+		addRule(p, &core.Rule{ID: p + ".commit-on-success", Floor: 2, Run: commitOnSuccess, Doc: doc})
+	}
+}
+
+func commitOnSuccess(c *core.Ctx) {
+	fn := c.Fn("haproxy", "instance.HAProxyUpdate")
+	if fn == nil {
+		return
+	}
+	isCommit := func(in ssa.Instruction) bool {
+		var cc *ssa.CallCommon
+		switch x := in.(type) {
+		case *ssa.Call:
+			cc = &x.Call
+		case *ssa.Defer:
+			cc = &x.Call
+		}
+		if cc == nil {
+			return false
+		}
+		n := core.CalleeName(cc)
+		return strings.HasSuffix(n, "config).Commit") || cc.IsInvoke() && cc.Method.Name() == "Commit"
+	}
+	n := 0
+	for _, r := range core.Returns(fn) {
+		if !core.IsNilConst(core.Results(r)[0]) {
+			continue
+		}
+		if guardedBy(r, has("i.config == nil"), true) {
+			c.Held("HAProxyUpdate without a model does nothing", at(c, r), "")
+			continue
+		}
+		n++
+		w := core.PathQuery{Fn: fn, Target: func(in ssa.Instruction) bool { return in == ssa.Instruction(r) }, Barrier: isCommit}.Find()
+		c.Check(w == nil, "HAProxyUpdate commits before it reports success: "+exitGuardsText(r), at(c, r), "", "a successful exit is reachable without config.Commit: "+w.Describe(c.Env))
+	}
+	c.Check(n >= 2, "HAProxyUpdate success exits", c.Pos(fn.Pos()), "", fmt.Sprintf("%d `return nil` after the guard (dynamic update and enqueued reload)", n))
+}
